@@ -5,7 +5,9 @@ package main
 // standard library documentation/source; they are small pure functions).
 
 import (
+	"go/ast"
 	"go/types"
+	"strings"
 
 	"golang.org/x/tools/go/ssa"
 )
@@ -121,4 +123,111 @@ func init() {
 		return TupleV{Extract(127, 64, p), Extract(63, 0, p)}
 	}
 	_ = types.Typ
+}
+
+// ---- specification side of \u escapes (used by contracts; same exact definitions as above) ----
+
+func hexvTerm(b *Term) *Term {
+	z := func(x *Term) *Term { return ZeroExt(24, x) }
+	return Ite(byteRange(b, '0', '9'), z(Sub(b, BVI(8, '0'))),
+		Ite(byteRange(b, 'a', 'f'), z(Add(Sub(b, BVI(8, 'a')), BVI(8, 10))),
+			Ite(byteRange(b, 'A', 'F'), z(Add(Sub(b, BVI(8, 'A')), BVI(8, 10))), i32(0))))
+}
+
+// hex4Term: value of the four bytes at arr[i..i+4) read as hexadecimal digits.
+func hex4Term(arr, i *Term) *Term {
+	v := i32(0)
+	for k := int64(0); k < 4; k++ {
+		v = Add(BVOp("bvshl", v, i32(4)), hexvTerm(Select(arr, Add(i, I64(k)))))
+	}
+	return v
+}
+
+// uescAt: a complete \uXXXX escape starts at absolute index i and fits below end.
+func uescAt(arr, i, end *Term) *Term {
+	hexd := func(b *Term) *Term { return Or(byteRange(b, '0', '9'), byteRange(b, 'a', 'f'), byteRange(b, 'A', 'F')) }
+	cs := []*Term{Sle(Add(i, I64(6)), end), Eq(Select(arr, i), BVI(8, '\\')), Eq(Select(arr, Add(i, I64(1))), BVI(8, 'u'))}
+	for k := int64(2); k < 6; k++ {
+		cs = append(cs, hexd(Select(arr, Add(i, I64(k)))))
+	}
+	return And(cs...)
+}
+
+// escPair: the escape at i is a high surrogate directly followed by a low-surrogate escape.
+func escPair(arr, i, end *Term) *Term {
+	r0 := hex4Term(arr, Add(i, I64(2)))
+	r1 := hex4Term(arr, Add(i, I64(8)))
+	return And(Sle(i32(0xD800), r0), Slt(r0, i32(0xDC00)), uescAt(arr, Add(i, I64(6)), end), Sle(i32(0xDC00), r1), Slt(r1, i32(0xE000)))
+}
+
+// escRune: the rune denoted by the escape at i (RFC 8259 section 7 + U+FFFD for unpaired surrogates).
+func escRune(arr, i, end *Term) *Term {
+	r0 := hex4Term(arr, Add(i, I64(2)))
+	r1 := hex4Term(arr, Add(i, I64(8)))
+	sur := And(Sle(i32(0xD800), r0), Slt(r0, i32(0xE000)))
+	comb := Add(BVOp("bvor", BVOp("bvshl", Sub(r0, i32(0xD800)), i32(10)), Sub(r1, i32(0xDC00))), i32(0x10000))
+	return Ite(escPair(arr, i, end), comb, Ite(sur, i32(0xFFFD), r0))
+}
+
+func init() {
+	sl := func(e *Env, a TV, n *ast.CallExpr) (*Term, *Term, *Term) {
+		sv, ok := a.V.(*SliceV)
+		if !ok {
+			e.fail("slice argument expected in %s", exprString(n))
+		}
+		arr := e.ex.load(e.st, Place{Root: sv.Reg}).(*ArrayV).Arr
+		return arr, sv.Off, Add(sv.Off, sv.Len)
+	}
+	// hex4(s, i): the four bytes s[i..i+4) read as hexadecimal digits (32-bit)
+	specFns["hex4"] = func(e *Env, a []TV, n *ast.CallExpr) TV {
+		arr, off, _ := sl(e, a[0], n)
+		return TV{V: hex4Term(arr, Add(off, Resize(argTerm(e, a[1], n), 64, true))), Signed: true}
+	}
+	// escpair(s, i), escrune(s, i): pairing and rune of the \u escape at i. They are uninterpreted
+	// symbols (so that the spec run's output axiom stays small); the defining equation is added
+	// wherever a contract clause mentions them.
+	specFns["escpair"] = func(e *Env, a []TV, n *ast.CallExpr) TV {
+		arr, off, end := sl(e, a[0], n)
+		i := Add(off, Resize(argTerm(e, a[1], n), 64, true))
+		t := escPairSym(arr, i, end)
+		e.addHyp(Eq(t, escPair(arr, i, end)))
+		return TV{V: t}
+	}
+	specFns["escrune"] = func(e *Env, a []TV, n *ast.CallExpr) TV {
+		arr, off, end := sl(e, a[0], n)
+		i := Add(off, Resize(argTerm(e, a[1], n), 64, true))
+		t := escRuneSym(arr, i, end)
+		e.addHyp(Eq(t, escRune(arr, i, end)))
+		return TV{V: t, Signed: true}
+	}
+	// utf8len(r), utf8b(r, j): length and j-th byte of the UTF-8 encoding of rune r
+	specFns["utf8len"] = func(e *Env, a []TV, n *ast.CallExpr) TV {
+		r := Resize(argTerm(e, a[0], n), 32, true)
+		utf8Defs(e, r)
+		return TV{V: u8len(r), Signed: true}
+	}
+	specFns["utf8b"] = func(e *Env, a []TV, n *ast.CallExpr) TV {
+		r := Resize(argTerm(e, a[0], n), 32, true)
+		utf8Defs(e, r)
+		return TV{V: u8b(r, Resize(argTerm(e, a[1], n), 64, true))}
+	}
+}
+
+func escPairSym(arr, i, end *Term) *Term { return App("esc.pair$"+arr.Name, BoolSort, i, end) }
+func escRuneSym(arr, i, end *Term) *Term { return App("esc.rune$"+arr.Name, BV(32), i, end) }
+func u8len(r *Term) *Term                { return App("u8.len", BV(64), r) }
+func u8b(r, j *Term) *Term               { return App("u8.b", BV(8), r, j) }
+
+// utf8Defs: the defining equations of u8.len / u8.b for the (ground) rune r.
+func utf8Defs(e *Env, r *Term) {
+	for _, v := range FreeVars(r) {
+		if strings.HasPrefix(v.Name, "q.") || strings.HasPrefix(v.Name, "sk.") {
+			return // under a quantifier: definitions are supplied by the enclosing ground occurrence
+		}
+	}
+	n, b := utf8Bytes(r)
+	e.addHyp(Eq(u8len(r), n))
+	for j := int64(0); j < 4; j++ {
+		e.addHyp(Eq(u8b(r, I64(j)), b[j]))
+	}
 }
